@@ -210,6 +210,20 @@ CLAIMED["C12"] = dict(
          "vendored UCD, harness c12.c, driver.",
     ref="6 C12")
 
+CLAIMED["C13"] = dict(
+    technique="Lean model of gp_str_compare / gp_str_sort over code point lists + T-gen of the full case folding table (every code point, '' and tr) kernel-checked against UCD CaseFolding + T-corr on triples and arrays",
+    text="Theorems: the code point comparison is zero exactly for equal strings, its sign is antisymmetric, it is transitive and "
+         "total (cmpCps_zero_iff, cmpCps_antisymm, cmpCps_trans, cmpCps_total), negative exactly when the first string is a proper "
+         "prefix or smaller at the first difference (cmpCps_neg_cases); the reverse flag negates every mode (compare_reverse, "
+         "compare_antisymm); GP_CASE_FOLD comparison is zero exactly when the Unicode full case foldings (Turkic option under tr/az) "
+         "are equal, for all strings incl. U+0000 (compare_fold_zero_iff_spec, from fold1 = UCD C+F by kernel-checked table equality); "
+         "every comparator handed to qsort is a total preorder (comparator_total_preorder) and sorting by it gives a permutation that "
+         "is non-decreasing / non-increasing under the selected comparison for any number of strings (sort_sorted_perm).",
+    note="Trusted: qsort, wcscoll (C.UTF-8 only - no other locale is installed; collation cannot see past U+0000, such inputs are "
+         "not generated under GP_COLLATE), the extractor, harness c12.c. Not proved: 'equivalently by bytes' (UTF-8 preserves code "
+         "point order) - the correspondence compares with code point order only.",
+    ref="6 C13")
+
 PENDING = {}
 
 def main():
